@@ -1,4 +1,5 @@
 import TsrunVerif.Model.Parse
+import TsrunVerif.Gen.ParserLimits
 
 namespace TsrunVerif.Driver
 open TsrunVerif.Parse
@@ -19,9 +20,47 @@ def parseSk (s : String) : Option Sk :=
   | some [[root]] => some root
   | _ => none
 
-/-- `<skeleton>` → `size=<n> depth=<d> first=<costFirst> again=<costAgain>` -/
+/-- parse `C[W[L]LL]` (`L` leaf, `W[..]` wrap, `C[head ops..]` chain) -/
+def parseTr (s : String) : Option Tr :=
+  let close (kind : Char) (kids : List Tr) : Option Tr :=
+    if kind == 'W' then some (.wrap kids)
+    else match kids with
+      | h :: ops => some (.chain h ops)
+      | [] => none
+  let step (st : Option (List (Char × List Tr))) (c : Char) : Option (List (Char × List Tr)) :=
+    match st with
+    | none => none
+    | some stack =>
+      if c == 'L' then
+        match stack with
+        | (k, kids) :: rest => some ((k, Tr.leaf :: kids) :: rest)
+        | [] => none
+      else if c == 'W' || c == 'C' then some ((c, []) :: stack)
+      else if c == '[' then some stack
+      else if c == ']' then
+        match stack with
+        | (k, kids) :: (pk, pkids) :: rest =>
+          (close k kids.reverse).map (fun t => (pk, t :: pkids) :: rest)
+        | _ => none
+      else none
+  match s.toList.foldl step (some [('W', [])]) with
+  | some [(_, [root])] => some root
+  | _ => none
+
+/-- `<skeleton>` → `size=<n> depth=<d> first=<costFirst> again=<costAgain>`;
+    `T <tree>` → the accounting's verdict at the limit of the current source (`Gen.maxChain`) and 50 links
+    below / above it, with the depth of the tree and of the parser's recursion -/
 def parseLine (line : String) : String :=
-  match parseSk line.trimAscii.toString with
+  let l := line.trimAscii.toString
+  if l.startsWith "T " then
+    match parseTr (l.drop 2).toString with
+    | some t =>
+      let m := TsrunVerif.Gen.maxChain
+      let b (x : Option (Nat × Nat)) : Nat := if x.isSome then 1 else 0
+      s!"tr acc={b (scan m t (0, 0))} lo={b (scan (m - 50) t (0, 0))} hi={b (scan (m + 50) t (0, 0))} tdepth={tdepth t} rdepth={rdepth t} max={m}"
+    | none => "bad-case"
+  else
+  match parseSk l with
   | some s => s!"size={size s} depth={depth s} first={costFirst s} again={costAgain s}"
   | none => "bad-case"
 
